@@ -597,6 +597,7 @@ Section Par2Faults.
     cbv zeta in H.
     lazymatch type of H with (if ?c then _ else _) = _ => destruct c end; [discriminate H|].
     lazymatch type of H with (if ?c then _ else _) = _ => destruct c end; [discriminate H|].
+    lazymatch type of H with (if ?c then _ else _) = _ => destruct c end; [discriminate H|].
     lazymatch type of H with context [io_reads ?ps st] =>
       destruct (io_reads ps st) as [[datas|e|q] st1] eqn:ER end; try discriminate H.
     lazymatch type of H with context [create_outputs ?a ?b ?c ?d ?e ?f] =>
@@ -666,6 +667,7 @@ Section Par2Faults.
     destruct (negb (str_eqb (ext par) EXT_PAR2)); [cbn [snd]; apply touched_refl|].
     destruct files as [|f0 files0]; [cbn [snd]; apply touched_refl|].
     cbv zeta.
+    lazymatch goal with |- touched _ (snd (if ?c then _ else _)) => destruct c end; [cbn [snd]; apply touched_refl|].
     lazymatch goal with |- touched _ (snd (if ?c then _ else _)) => destruct c end; [cbn [snd]; apply touched_refl|].
     lazymatch goal with |- touched _ (snd (if ?c then _ else _)) => destruct c end; [cbn [snd]; apply touched_refl|].
     lazymatch goal with |- context [io_reads ?ps st] =>
